@@ -65,10 +65,11 @@ Definition active_non_leaves (c : cfg) (ds : list deme) : list nat :=
   flat_map (fun l => filter (fun i => d_active (dnth i ds)) (level_ids ds l)) (seq 0 (height c - 1)).
 
 (* DemeTree.run_metaepoch *)
+Definition meta_body (c : cfg) (fuel : nat) (d : nat) : D bool :=
+  h <- r_hibernating d ;; if hib_on c && h then ret false else run_deme c fuel d ;;; ret false.
 Definition run_metaepoch (c : cfg) (fuel : nat) : D unit :=
   s <- get_st ;;
-  for_ (rev (active_demes c (demes s)))
-       (fun d => h <- r_hibernating d ;; if hib_on c && h then ret false else run_deme c fuel d ;;; ret false) ;;;
+  for_ (rev (active_demes c (demes s))) (meta_body c fuel) ;;;
   ret tt.
 
 (* DemeTree._do_sprout *)
@@ -77,18 +78,21 @@ Definition sprout_child (p : nat) (target : nat) : D bool :=
   ch <- p_init_from_config target target m ;;
   p_append_level target (add_child p ch) ;;;
   ret false.
+Definition sprout_parent (pk : nat * list Z) : D bool :=
+  lv <- r_level (fst pk) ;; for_ (snd pk) (fun _ => sprout_child (fst pk) (S lv)).
 Definition do_sprout_b (seeds : cmap) : D unit :=
-  for_ seeds (fun pk => lv <- r_level (fst pk) ;; for_ (snd pk) (fun _ => sprout_child (fst pk) (S lv))) ;;;
+  for_ seeds sprout_parent ;;;
   ret tt.
 
 (* DemeTree.run_sprout *)
+Definition hib_body (seeds : cmap) (d : nat) : D bool := p_set_hibernating d (negb (in_seeds seeds d)) ;;; ret false.
 Definition run_sprout (c : cfg) : D unit :=
   s <- get_st ;;
   let participants := active_non_leaves c (demes s) in
   seeds <- p_get_seeds c ;;
   do_sprout_b seeds ;;;
   if hib_on c
-  then for_ (rev participants) (fun d => p_set_hibernating d (negb (in_seeds seeds d)) ;;; ret false) ;;; ret tt
+  then for_ (rev participants) (hib_body seeds) ;;; ret tt
   else ret tt.
 
 (* DemeTree.run_step *)
@@ -99,5 +103,7 @@ Definition run_step (c : cfg) (fuel : nat) : D unit :=
   if v then ret tt else run_sprout c.
 
 (* DemeTree.run: while not self._gsc(self): self.run_step() *)
+Definition run_cond (c : cfg) (_ : unit) : D bool := v <- p_gsc c ;; ret (negb v).
+Definition run_body (c : cfg) (fuel : nat) (_ : unit) : D (unit * bool) := run_step c fuel ;;; ret (tt, false).
 Definition run_tree (c : cfg) (fuel : nat) : D unit :=
-  while_ fuel (fun _ : unit => v <- p_gsc c ;; ret (negb v)) (fun _ => run_step c fuel ;;; ret (tt, false)) tt ;;; ret tt.
+  while_ fuel (run_cond c) (run_body c fuel) tt ;;; ret tt.
